@@ -1,9 +1,15 @@
 package checks
 
 import (
+	crand "crypto/rand"
 	"encoding/base64"
 	"fmt"
+	"io"
+	"net/http"
+	"net/url"
+	"runtime"
 	"strings"
+	"sync"
 	"time"
 
 	"verif/sim"
@@ -519,6 +525,73 @@ func c02InterleavedValidate(c *RunCtx, unit int) {
 	w.LoadState(base)
 }
 
+// yieldingReader widens the window after every read of the process' entropy source (a scheduling point
+// injected at an existing suspension point: the read is a system call).
+type yieldingReader struct{ inner io.Reader }
+
+func (y yieldingReader) Read(p []byte) (int, error) {
+	n, err := y.inner.Read(p)
+	runtime.Gosched()
+	time.Sleep(50 * time.Microsecond)
+	return n, err
+}
+
+// smsIssueBurst: "a code obtained for any other account or phone never completes it" presupposes that the codes
+// texted to different phones at the same moment are different codes. G SMS accounts do the password step at the
+// same moment on a real server, R rounds; a pair of simultaneously issued identical codes is a 10^-6 accident —
+// two or more such pairs in one probe are not.
+func smsIssueBurst(seed int64, G, R int) (string, int) {
+	srv, err := newC20Server(seed, false, false, false)
+	if err != nil {
+		return "", 0
+	}
+	defer srv.close()
+	old := crand.Reader
+	crand.Reader = yieldingReader{old}
+	defer func() { crand.Reader = old }()
+	phone := func(g int) string { return fmt.Sprintf("+1666%04d", g) }
+	for g := 0; g < G; g++ {
+		pid := fmt.Sprintf("sms%d@site.test", g)
+		srv.store.Put(&world.User{PID: pid, Email: pid, Password: sim.Hash4("Sm5!passwd"), Confirmed: true, SMSPhone: phone(g)})
+	}
+	same, issued, witness := 0, 0, ""
+	for round := 0; round < R; round++ {
+		var wg sync.WaitGroup
+		start := make(chan struct{})
+		for g := 0; g < G; g++ {
+			wg.Add(1)
+			go func(g int) {
+				defer wg.Done()
+				hc := &http.Client{CheckRedirect: func(*http.Request, []*http.Request) error { return http.ErrUseLastResponse }, Timeout: 30 * time.Second}
+				req, _ := http.NewRequest("POST", srv.srv.URL+"/auth/login", strings.NewReader(url.Values{"email": {fmt.Sprintf("sms%d@site.test", g)}, "password": {"Sm5!passwd"}}.Encode()))
+				req.Header.Set("Content-Type", "application/x-www-form-urlencoded")
+				<-start
+				if resp, err := hc.Do(req); err == nil {
+					io.Copy(io.Discard, resp.Body)
+					resp.Body.Close()
+				}
+			}(g)
+		}
+		close(start)
+		wg.Wait()
+		codes := map[string]int{}
+		for g := 0; g < G; g++ {
+			if t := srv.sms.to(phone(g)); len(t) == round+1 {
+				issued++
+				if o, dup := codes[t[round]]; dup {
+					same++
+					witness = fmt.Sprintf("round %d: %q was texted to %s and to %s", round, t[round], phone(o), phone(g))
+				}
+				codes[t[round]] = g
+			}
+		}
+	}
+	if same >= 2 {
+		return fmt.Sprintf("%d pairs of identical SMS login codes were issued at the same moment to different phones among %d issuances (%s)", same, issued, witness), issued
+	}
+	return "", issued
+}
+
 // c02FaultProfile: a recovery code completes a login while a storage write of that request fails; the same
 // code is then presented again from another browser.
 var c02FaultProfile = &sim.Profile{
@@ -550,6 +623,14 @@ func init() {
 		Run: func(c *RunCtx, unit int) {
 			if unit%6 == 5 {
 				c02InterleavedValidate(c, unit)
+			}
+			if unit%100 == 7 {
+				if msg, n := smsIssueBurst(c.Seed*1000+int64(unit), 8, 20); msg != "" {
+					c.Stats.Violations = append(c.Stats.Violations, sim.VioRec{Violation: *vio("C02", "identical-sms-codes-issued-simultaneously-to-different-phones", "%s", msg), Index: unit})
+					return
+				} else {
+					c.Stats.Add("sms-codes-issued-concurrently", n)
+				}
 			}
 			_, s, ok := cfg2FA(c, "C02", unit)
 			if !ok {
